@@ -232,15 +232,17 @@ func sha1hex(b []byte) string {
 // ---- fake crawl HQ for whole-pipeline runs: feed, add, delete (acks), seencheck, reset, websocket
 
 type e2eHQ struct {
-	mu      sync.Mutex
-	feed    []gocrawlhq.URL
-	claimed map[string]bool
-	acks    []map[string]any
-	adds    []gocrawlhq.URL
-	resets  []string
-	seen    map[string]bool
-	t0      time.Time
-	o       *origin
+	mu       sync.Mutex
+	feed     []gocrawlhq.URL
+	claimed  map[string]bool
+	acks     []map[string]any
+	adds     []gocrawlhq.URL
+	resets   []string
+	seen     map[string]bool
+	t0       time.Time
+	o        *origin
+	snapshot bool
+	job      string
 }
 
 func (h *e2eHQ) ServeHTTP(w http.ResponseWriter, r *http.Request) {
@@ -290,8 +292,21 @@ func (h *e2eHQ) ServeHTTP(w http.ResponseWriter, r *http.Request) {
 		h.o.mu.Lock()
 		nreq := len(h.o.log)
 		h.o.mu.Unlock()
+		// what is on disk at this very moment: the responses whose records are complete in the job's WARC files
+		var onDisk []string
+		if h.snapshot {
+			matches, _ := filepath.Glob(filepath.Join("jobs", h.job, "warcs", "*"))
+			for _, m := range matches {
+				recs, _ := readWARC(m)
+				for _, r := range recs {
+					if (r.Type == "response" || r.Type == "revisit") && r.Complete {
+						onDisk = append(onDisk, fmt.Sprintf("%s %d", r.URI, r.Status))
+					}
+				}
+			}
+		}
 		for _, u := range pl.URLs {
-			h.acks = append(h.acks, map[string]any{"id": u.ID, "t": time.Since(h.t0).Nanoseconds(), "requestsBefore": nreq})
+			h.acks = append(h.acks, map[string]any{"id": u.ID, "t": time.Since(h.t0).Nanoseconds(), "requestsBefore": nreq, "onDisk": onDisk})
 		}
 		h.mu.Unlock()
 		w.WriteHeader(204)
@@ -538,7 +553,7 @@ func runE2E(in map[string]any) string {
 	useHQ := boolean(in, "useHQ", false)
 	var hqf *e2eHQ
 	if useHQ {
-		hqf = &e2eHQ{claimed: map[string]bool{}, seen: map[string]bool{}, t0: o.t0, o: o}
+		hqf = &e2eHQ{claimed: map[string]bool{}, seen: map[string]bool{}, t0: o.t0, o: o, snapshot: boolean(in, "snapshotAtAck", false), job: job}
 		for i, s := range strList(in, "seeds") {
 			hqf.feed = append(hqf.feed, gocrawlhq.URL{ID: fmt.Sprintf("s%d", i), Value: abs(s), Path: ""})
 		}
